@@ -124,6 +124,7 @@ ReducedUnary(m) ==
     [op |-> "cache", lazy |-> FALSE],
     [op |-> "catch", E |-> "Filter"],
     [op |-> "copy", freeze |-> TRUE],
+    [op |-> "apply", lazy |-> TRUE, ag |-> SL(NONE, NONE, 0 - 1)],
     [op |-> "prefetch", w |-> 1, bs |-> 2, cfe |-> "none"],
     [op |-> "prefetch", w |-> 2, bs |-> 2, cfe |-> "none"]>>
   \o (IF Family = "fault"
@@ -182,6 +183,15 @@ RichUnary(m) ==
        [op |-> "sort", key |-> "biginf", rev |-> FALSE], [op |-> "sort", key |-> "biginf", rev |-> TRUE],
        [op |-> "catch", E |-> "Exception"],
        [op |-> "copy", freeze |-> FALSE],
+       \* ds.apply(g, lazy): g from a small catalogue of unary operations
+       [op |-> "apply", lazy |-> TRUE,  ag |-> [op |-> "map", f |-> "inc"]],
+       [op |-> "apply", lazy |-> FALSE, ag |-> [op |-> "map", f |-> "inc"]],
+       [op |-> "apply", lazy |-> TRUE,  ag |-> SL(1, NONE, NONE)],
+       [op |-> "apply", lazy |-> FALSE, ag |-> SL(1, NONE, NONE)],
+       [op |-> "apply", lazy |-> TRUE,  ag |-> [op |-> "batch", b |-> 2, drop |-> FALSE]],
+       [op |-> "apply", lazy |-> TRUE,  ag |-> [op |-> "filter", p |-> P("even"), lazy |-> TRUE]],
+       [op |-> "apply", lazy |-> TRUE,  ag |-> [op |-> "sort", key |-> "neg", rev |-> FALSE]],
+       [op |-> "apply", lazy |-> TRUE,  ag |-> [op |-> "shard", sk |-> 2, si |-> 1]],
        [op |-> "prefetch", w |-> 1, bs |-> 1, cfe |-> "none"],
        [op |-> "prefetch", w |-> 1, bs |-> 3, cfe |-> "Filter"],
        [op |-> "prefetch", w |-> 2, bs |-> 3, cfe |-> "none"],
